@@ -42,6 +42,7 @@ def run(ctx) -> None:
     ctx.reuse("C09.max-volume", c03.step_guard_validator)
     ctx.reuse("C09.max-volume", c03.step_guard_wiring)
     ctx.reuse("C09.multi-disp", c06.multi_disp)
+    ctx.reuse("C09.max-volume", c06.config)
     # the tip-mask field: numbers 1-8 map to the Tecan mask values and nothing else is accepted
     from . import c10
 
